@@ -143,8 +143,18 @@ func c09Pan(c *Ctx, tp *tape.Tape, extra map[string]any) *Failure {
 		f := panosdev.Fault{At: toInt(fm["at"]), Kind: fmt.Sprint(fm["kind"])}
 		r := run(&f, f.Kind == "job-fail")
 		if f.Kind == "job-fail" {
-			if r.Res.Exit == 0 {
+			saved := false
+			for _, rec := range r.Node.Transcr {
+				// (see above: only a polled job can have failed)
+				if rec.Class == "poll" {
+					saved = true
+				}
+			}
+			if saved && r.Res.Exit == 0 {
 				return mk("PAN-OS|"+o.Front+"|exit-0|poll|job-fail", "exit status 0 although the commit job failed", r, &f)
+			}
+			if saved && o.Front == "do-approve" && (r.Status == nil || r.Status.Approve.Result != "FAILED") {
+				return mk("PAN-OS|"+o.Front+"|status-wrong|poll|job-fail", "status not FAILED although the commit job failed", r, &f)
 			}
 			return nil
 		}
@@ -172,7 +182,9 @@ func c09Pan(c *Ctx, tp *tape.Tape, extra map[string]any) *Failure {
 		c.Res.Evaluations++
 		saved := false
 		for _, rec := range r.Node.Transcr {
-			if rec.Class == "save" {
+			// A commit that is answered with "There are no changes to
+			// commit" creates no job: only a polled job can have failed.
+			if rec.Class == "poll" {
 				saved = true
 			}
 		}
